@@ -213,7 +213,7 @@ def small_graphs(max_dom=3, max_img=3, max_adj=4):
 def exhaustive_render_cases(quick):
     """goal: no luck needed for the kernels - every small graph through every render type, single and composite"""
     out = []
-    singles = small_graphs(3, 3, 3 if quick else 4)
+    singles = small_graphs(3, 3, 3 if quick else 5)
     for (m, adj) in singles:
         for rt in range(8):
             out.append("render %d %s" % (rt, fmt_graph(m, adj)))
@@ -222,7 +222,7 @@ def exhaustive_render_cases(quick):
         if adj:
             out.append("sort %s" % fmt_graph(m, adj))
     # composite: every pair (a, b) of small graphs with matching dimension and <= 3 (thorough: 4) adjacencies in total
-    tot = 3 if quick else 4
+    tot = 3 if quick else 5
     G = small_graphs(3, 3, tot)
     byd = {}
     for (m, adj) in G:
@@ -234,8 +234,11 @@ def exhaustive_render_cases(quick):
         for (bm, b, kb) in byd.get(am, []):
             if ka + kb > tot:
                 continue
-            for rt in range(8):
+            # 5 adjacencies in total: the four kernels; fewer: all 8 render types (sorted variants too)
+            for rt in ((0, 2, 4, 6) if ka + kb == 5 else range(8)):
                 out.append("render2 %d %s %s" % (rt, fmt_graph(am, a), fmt_graph(bm, b)))
+            if ka + kb == 5:
+                continue
             # the lazy CompositeAdjactor iterator (every shape, incl. image_begin on an empty adjactor-2 list)
             out.append("adjcomp %s %s" % (fmt_graph(am, a), fmt_graph(bm, b)))
             out.append("adjrender %d %s %s" % ((len(out) // 3) % 8, fmt_graph(am, a), fmt_graph(bm, b)))
@@ -246,7 +249,7 @@ def exhaustive_symmetric_cases(quick):
     """all undirected simple graphs with <= 5 (quick: 4) nodes: both colouring constructors, all 18 CM options"""
     import itertools
     out = []
-    for n in range(1, (4 if quick else 5) + 1):
+    for n in range(1, (4 if quick else 6) + 1):
         pairs = [(i, j) for i in range(n) for j in range(i + 1, n)]
         for bits in range(1 << len(pairs)):
             adj = [[] for _ in range(n)]
@@ -256,7 +259,8 @@ def exhaustive_symmetric_cases(quick):
                     adj[j].append(i)
             g = fmt_graph(n, adj)
             out.append("color %s" % g)
-            orders = [list(range(n)), list(reversed(range(n))), [(3 * i + 1) % n for i in range(n)] if n in (2, 4, 5) else list(range(n))]
+            orders = [list(range(n)), list(reversed(range(n))), [(3 * i + 1) % n for i in range(n)] if n in (2, 4, 5) else
+                      ([(5 * i + 2) % n for i in range(n)] if n == 6 else list(range(n)))]
             for o in orders[:(2 if quick else 3)]:
                 out.append("colororder %s %s" % (g, fmt_list(o)))
             for rev in range(2):
@@ -346,6 +350,75 @@ def gen_api_cases(rng, count):
             else:
                 cases.append("adjrender %d %s %s" % (rng.randrange(8), fmt_graph(a_img, a), fmt_graph(b_img, b)))
     return cases
+
+
+def gen_container_cases(rng, count):
+    """permutations on blocked data and real containers; CSR permutation vs graph permutation"""
+    cases = []
+    for _ in range(count):
+        k = rng.random()
+        n = rng.choice([1, 2, 3, 4, 5, 8, 13])
+        if k < 0.25:
+            kind = rng.choice([1, 2, 3, 4, 5])
+            v = [rng.randrange(i, n) for i in range(n)] if kind in (3, 5) else \
+                (structured_perm(rng, n) if rng.random() < 0.5 else rand_perm(rng, n))
+            bs = rng.choice([1, 2, 3])
+            cases.append("applyblk %d %s %d %s" % (kind, fmt_list(v), bs, fmt_list([rng.randrange(100) for _ in range(n * bs)])))
+        elif k < 0.45:
+            blocked = rng.randrange(2)
+            m = n if rng.random() < 0.9 else n + 1
+            p = [] if rng.random() < 0.1 else rand_perm(rng, m)
+            cases.append("dvperm %d %s %s" % (blocked, fmt_list(p), fmt_list([rng.randrange(100) for _ in range(n * (2 if blocked else 1))])))
+        elif k < 0.6:
+            bound = rng.choice([1, 2, 4, 7])
+            nn = rng.choice([0, n])
+            p = [] if rng.random() < 0.2 else rand_perm(rng, nn if rng.random() < 0.9 else nn + 1)
+            q = [] if rng.random() < 0.2 else rand_perm(rng, bound if rng.random() < 0.9 else bound + 1)
+            cases.append("isperm %s %s %d %s" % (fmt_list(p), fmt_list(q), bound, fmt_list([rng.randrange(bound) for _ in range(3 * nn)])))
+        elif k < 0.72:
+            p = [] if rng.random() < 0.1 else rand_perm(rng, n if rng.random() < 0.9 else n + 1)
+            cases.append("vsperm %d %s %s" % (rng.randrange(2), fmt_list(p), fmt_list([rng.randrange(100) for _ in range(2 * n)])))
+        else:
+            n_img, adj = gen_graph(rng, max_n=8)
+            if sum(map(len, adj)) == 0:       # entry-free CSR permute: C02's open finding c02-edge:D1
+                n_img, adj = 3, [[2, 0, 2], [], [1]]
+            r = rng.random()
+            if r < 0.08:
+                p, q = [], []
+            elif r < 0.16:
+                p, q = rand_perm(rng, len(adj) + 1), rand_perm(rng, n_img)
+            else:
+                p, q = rand_perm(rng, len(adj)), rand_perm(rng, n_img)
+            cases.append("csrperm %s %s %s" % (fmt_graph(n_img, adj), fmt_list(p), fmt_list(q)))
+    return cases
+
+
+def exhaustive_container_cases(quick):
+    """all permutations of length <= 3 (4) on blocked arrays / containers; all CSR patterns <= 3x3 with <= 3 (4)
+    distinct entries under all row/column permutations (thorough) or a fixed pair (quick)"""
+    import itertools
+    out = []
+    for n in range(1, (3 if quick else 4) + 1):
+        for p in itertools.permutations(range(n)):
+            p = list(p)
+            for bs in (1, 2, 3):
+                out.append("applyblk 2 %s %d %s" % (fmt_list(p), bs, fmt_list([10 * (i // bs) + i % bs for i in range(n * bs)])))
+            out.append("dvperm 0 %s %s" % (fmt_list(p), fmt_list([10 + i for i in range(n)])))
+            out.append("dvperm 1 %s %s" % (fmt_list(p), fmt_list([10 + i for i in range(2 * n)])))
+            out.append("vsperm 0 %s %s" % (fmt_list(p), fmt_list([10 + i for i in range(2 * n)])))
+            out.append("vsperm 1 %s %s" % (fmt_list(p), fmt_list([10 + i for i in range(2 * n)])))
+            for q in itertools.permutations(range(2)):
+                out.append("isperm %s %s 2 %s" % (fmt_list(p), fmt_list(list(q)), fmt_list([(i * 7 + 1) % 2 for i in range(3 * n)])))
+    for (m, adj) in small_graphs(3, 3, 3 if quick else 4):
+        if sum(map(len, adj)) == 0 or any(len(set(l)) != len(l) for l in adj):
+            continue
+        d = len(adj)
+        pairs = [(list(p), list(q)) for p in itertools.permutations(range(d)) for q in itertools.permutations(range(m))]
+        if quick:
+            pairs = [pairs[len(pairs) // 2], pairs[-1]]
+        for (p, q) in pairs:
+            out.append("csrperm %s %s %s" % (fmt_graph(m, adj), fmt_list(p), fmt_list(q)))
+    return out
 
 
 def randperm_cases(binary, rng, count):
@@ -509,12 +582,185 @@ def cm_layers_check(adj, rev, perm, layers):
     return None
 
 
+def cm_reference(adj, rev, rt, st):
+    """the documented ordering, written from the documentation (not from the Lean model): components in the order
+    of the documented root among the nodes that are left; a level = not yet numbered neighbours of the previous
+    level in discovery order (parent position, then adjacency-list position), stably sorted by degree if asked;
+    a component is reversed as a whole (numbering and level sizes) when `reverse` is set"""
+    n = len(adj)
+    deg = [len(l) for l in adj]
+    seen = [False] * n
+    perm, layers = [], [0]
+    while len(perm) < n:
+        cand = [j for j in range(n) if not seen[j]]
+        if rt == 0:
+            root = cand[0]
+        elif rt == 1:
+            root = min(cand, key=lambda j: (deg[j], j))
+        else:
+            root = min(cand, key=lambda j: (-deg[j], j))
+        seen[root] = True
+        levels = [[root]]
+        while True:
+            nxt = []
+            for x in levels[-1]:
+                for k in adj[x]:
+                    if not seen[k]:
+                        seen[k] = True
+                        nxt.append(k)
+            if not nxt:
+                break
+            if st == 1:
+                nxt = sorted(nxt, key=lambda k: deg[k])          # Python's sort is stable
+            elif st == 2:
+                nxt = sorted(nxt, key=lambda k: -deg[k])
+            levels.append(nxt)
+        comp = [x for lv in levels for x in lv]
+        sizes = [len(lv) for lv in levels]
+        if rev:
+            comp.reverse()
+            sizes.reverse()
+        perm += comp
+        for sz in sizes:
+            layers.append(layers[-1] + sz)
+    layers.append(n)
+    return perm, layers
+
+
 def canon(out):
     if out.startswith("ABORT"):
         return "ABORT"
     if out.startswith("EXC:"):
         return "EXC"
     return out
+
+
+def perm_of(kind, v):
+    n = len(v)
+    if kind == 1:
+        return list(range(n))
+    if kind == 2:
+        return list(v)
+    if kind == 4:
+        p = [0] * n
+        for i, k in enumerate(v):
+            p[k] = i
+        return p
+    p = list(range(n))
+    for i in (range(n) if kind == 3 else reversed(range(n))):
+        p[i], p[v[i]] = p[v[i]], p[i]
+    return p
+
+
+def oracle_perm_containers(op, c, out):
+    """permutations applied to blocked arrays and to real containers: y[i] = x[perm[i]] blockwise"""
+    if op == "applyblk":
+        kind, v, bs, x = c.nat(), c.lst(), c.nat(), c.lst()
+        p = perm_of(kind, v)
+        n = len(p)
+        if is_abnormal(out):
+            return "blocked apply ended with " + out
+        o = Tk(out)
+        assert o.tok() == "AB"
+        a, b, cc, d = o.lst(), o.lst(), o.lst(), o.lst()
+        blk = [x[i * bs:(i + 1) * bs] for i in range(n)]
+        exp = [e for k in p for e in blk[k]]
+        inv = [None] * n
+        for i, k in enumerate(p):
+            inv[k] = blk[i]
+        inv = [e for bl in inv for e in bl]
+        if a != exp or cc != exp:
+            return "blocked apply is not block[perm[i]]"
+        if b != inv or d != inv:
+            return "blocked inverse apply does not undo the permutation"
+        return None
+    if op == "dvperm":
+        blocked, p, x = c.nat(), c.lst(), c.lst()
+        bs = 2 if blocked else 1
+        n = len(x) // bs
+        if p and len(p) != n:
+            return None if out.startswith("ABORT") else "size mismatch not reported"
+        if is_abnormal(out):
+            return "DenseVector permute ended with " + out
+        o = Tk(out)
+        assert o.tok() == "DV"
+        r = o.lst()
+        exp = x if not p else [e for k in p for e in x[k * bs:(k + 1) * bs]]
+        return None if r == exp else "DenseVector%s::permute: %s, expected %s" % ("Blocked" if blocked else "", r, exp)
+    if op == "isperm":
+        p, q, bound, x = c.lst(), c.lst(), c.nat(), c.lst()
+        n = len(x) // 3
+        tup = [x[3 * i:3 * i + 3] for i in range(n)]
+        if n > 0 and ((p and len(p) != n) or (q and len(q) != bound)):
+            return None if out.startswith("ABORT") else "size mismatch not reported"
+        if is_abnormal(out):
+            return "IndexSet permute ended with " + out
+        o = Tk(out)
+        assert o.tok() == "IS"
+        rn, rb, r = o.nat(), o.nat(), o.lst()
+        g_img, ptr, idx, radj = o.graph_out()
+        if n > 0:
+            if p:
+                tup = [tup[k] for k in p]
+            if q:
+                tup = [[q[k] for k in t] for t in tup]
+        if (rn, rb) != (n, bound) or r != [e for t in tup for e in t]:
+            return "IndexSet::permute: %s, expected %s" % (r, tup)
+        if radj != tup or g_img != bound:
+            return "permuted index set rendered as a graph differs from its tuples"
+        return None
+    if op == "vsperm":
+        inv, p, x = c.nat(), c.lst(), c.lst()
+        n = len(x) // 2
+        blk = [x[2 * i:2 * i + 2] for i in range(n)]
+        if p and n > 0 and len(p) != n:
+            return None if out.startswith("ABORT") else "size mismatch not reported"
+        if is_abnormal(out):
+            return "VertexSet permute ended with " + out
+        o = Tk(out)
+        assert o.tok() == "VS"
+        r = o.lst()
+        if p and n > 0:
+            if inv:
+                nb = [None] * n
+                for i, k in enumerate(p):
+                    nb[k] = blk[i]
+                blk = nb
+            else:
+                blk = [blk[k] for k in p]
+        return None if r == [e for b in blk for e in b] else "VertexSet::permute(invert=%d) wrong" % inv
+    if op == "csrperm":
+        n_img, adj = c.graph_in()
+        p, q = c.lst(), c.lst()
+        rows = [sorted(set(l)) for l in adj]
+        if (p or q) and (len(p) != len(rows) or len(q) != n_img):
+            return None if out.startswith("ABORT") else "size mismatch not reported"
+        if is_abnormal(out):
+            return "CSR permute ended with " + out
+        o = Tk(out)
+        assert o.tok() == "CP"
+        a_img, aptr, aidx, aadj = o.graph_out()
+        assert o.tok() == "V"
+        vals = o.lst()
+        g_img, gptr, gidx, gadj = o.graph_out()
+        if not p and not q:
+            p, q = list(range(len(rows))), list(range(n_img))
+        qinv = [0] * n_img
+        for i, k in enumerate(q):
+            qinv[k] = i
+        exp, expv = [], []
+        for i in range(len(rows)):
+            ent = sorted((qinv[cc], p[i] * 1000 + cc) for cc in rows[p[i]])
+            exp.append([e[0] for e in ent])
+            expv += [e[1] for e in ent]
+        if aadj != exp or a_img != n_img:
+            return "pattern of the permuted CSR matrix %s, expected %s" % (aadj, exp)
+        if vals != expv:
+            return "values of the permuted CSR matrix did not travel with their entries"
+        if gadj != aadj or g_img != a_img:
+            return "Graph(g, p, q^-1) + sort_indices %s differs from the pattern of the permuted matrix %s" % (gadj, aadj)
+        return None
+    return None
 
 
 def oracle(case, out):
@@ -656,6 +902,8 @@ def oracle(case, out):
             nc = o.nat()
             col = o.lst()
             p_img, ptr, idx, padj = o.graph_out()
+            assert o.tok() == "T"
+            t_img, tptr, tidx, tadj = o.graph_out()
             if len(col) != len(adj):
                 return "colouring has wrong length"
             for i, l in enumerate(adj):
@@ -671,6 +919,11 @@ def oracle(case, out):
                 for cidx, l in enumerate(padj):
                     if l != [j for j in range(len(col)) if col[j] == cidx]:
                         return "partition graph row %d wrong" % cidx
+                # round trip: transposing the partition graph gives the colouring array back
+                if tadj != [[cc] for cc in col] or t_img != nc:
+                    return "transposed partition graph %s is not the colouring %s" % (tadj, col)
+                if nc > max(len(l) for l in adj) + 1:
+                    return "more colours (%d) than maximum degree + 1" % nc
             return None
         if op == "degree":
             n_img, adj = c.graph_in()
@@ -868,6 +1121,8 @@ def oracle(case, out):
             if radj != exp or r_img != dims[1]:
                 return "DynamicGraph render constructor: %s, expected %s" % (radj, exp)
             return None
+        if op in ("applyblk", "dvperm", "isperm", "vsperm", "csrperm"):
+            return oracle_perm_containers(op, c, out)
         if op == "cm":
             rev, rt, st = c.nat(), c.nat(), c.nat()
             n_img, adj = c.graph_in()
@@ -889,7 +1144,16 @@ def oracle(case, out):
                 return "swap array does not realise the ordering"
             if layers[0] != 0 or layers[-1] != n or any(layers[i] > layers[i + 1] for i in range(len(layers) - 1)):
                 return "layer offsets malformed: %s" % layers
-            return cm_layers_check(adj, rev, perm, layers)
+            e = cm_layers_check(adj, rev, perm, layers)
+            if e:
+                return e
+            rperm, rlayers = cm_reference(adj, rev, rt, st)
+            if perm != rperm:
+                return "ordering %s differs from the documented one %s (root choice / discovery order / stable " \
+                       "degree sort / reversal)" % (perm, rperm)
+            if layers != rlayers:
+                return "layers %s differ from the documented ones %s" % (layers, rlayers)
+            return None
     except ObserverError as e:
         return "graph observer: %s" % e
     except (IndexError, ValueError, AssertionError) as e:
@@ -905,6 +1169,8 @@ def nontrivial(case):
     if op in ("ctor", "dynrender"):
         return len(case.split()) > 8
     if op in ("adjcomp", "adjrender", "gpermidx", "degree"):
+        return len(case.split()) > 7
+    if op in ("applyblk", "dvperm", "isperm", "vsperm"):
         return len(case.split()) > 7
     try:
         if op in ("render", "render2"):
@@ -956,11 +1222,12 @@ def main(argv):
         cases = CORPUS + exhaustive_perm_cases() + (gen_cases(rng, 3000) if quick else gen_cases(rng, 150000, big=True))
         cases += gen_api_cases(rng, 2500 if quick else 60000)
         cases += randperm_cases(binary, rng, 200 if quick else 5000)
+        cases += gen_container_cases(rng, 1500 if quick else 40000)
     st = vlib.Stream("adjacency", cases, [binary], vlib.driver_cmd(PROP), oracle=oracle, nontrivial=nontrivial,
                      describe=describe, signature=signature, canon=canon)
     streams = [st]
     if not args.replay:
-        ex = exhaustive_render_cases(quick) + exhaustive_symmetric_cases(quick)
+        ex = exhaustive_render_cases(quick) + exhaustive_symmetric_cases(quick) + exhaustive_container_cases(quick)
         streams.append(vlib.Stream("small-scope", ex, [binary], vlib.driver_cmd(PROP), oracle=oracle,
                                    nontrivial=nontrivial, describe=describe, signature=signature, canon=canon))
     stats_rule = ("random graphs (domain/image 0..14, empty lists, duplicates, isolated nodes, several components), "
@@ -968,8 +1235,8 @@ def main(argv):
                   "colouring with/without order, CM with all 2x3x3 options (layers checked as BFS levels); Graph::degree, "
                   "Copy-Array/Copy-Vector/clone/move, permute_indices, Permutation(n,Random&), inverse.inverse, clone, "
                   "Coloring array/vector ctors, DynamicGraph scripts and render ctors, CompositeAdjactor iteration; "
-                  "small-scope stream: ALL graphs with <=3x<=3 nodes and <=3 (thorough: 4) adjacencies through all 8 "
-                  "render types, ALL composite pairs with <=3 (4) adjacencies in total through all 8 types, ALL undirected graphs with <=4 (5) "
+                  "small-scope stream: ALL graphs with <=3x<=3 nodes and <=3 (thorough: 5) adjacencies through all 8 "
+                  "render types, ALL composite pairs with <=3 (4; 5 for the four kernels) adjacencies in total through all 8 types, ALL undirected graphs with <=4 (6) "
                   "nodes through both colouring ctors and all 18 CM options; non-trivial = duplicates, an empty "
                   "adjacency list or >= 2 adjacencies (graphs) / length >= 2 (permutations)")
     rc = vlib.run_pipeline(PROP, args.tier, args.seed, lean, streams, t0, assumptions=[
